@@ -67,6 +67,14 @@ def base_env(bins, home=None, now=PINNED_NOW, clocklog=None, gitlog=None, gitfai
     return env
 
 
+MEM_LIMIT = 8 << 30    # address-space ceiling for every zerv run: an input-driven allocation loop must not take the machine down
+
+
+def _limit_memory():
+    import resource
+    resource.setrlimit(resource.RLIMIT_AS, (MEM_LIMIT, MEM_LIMIT))
+
+
 def run_zerv(bins, argv, stdin=None, env=None, cwd=None, timeout=60):
     """Run the real zerv binary. Returns dict(exit, out, err, timeout)."""
     if env is None:
@@ -78,7 +86,7 @@ def run_zerv(bins, argv, stdin=None, env=None, cwd=None, timeout=60):
         stdin_arg = subprocess.PIPE
     try:
         p = subprocess.Popen([bins["zerv"]] + list(argv), stdin=stdin_arg, stdout=subprocess.PIPE,
-                             stderr=subprocess.PIPE, env=env, cwd=cwd or "/")
+                             stderr=subprocess.PIPE, env=env, cwd=cwd or "/", preexec_fn=_limit_memory)
     except (OSError, ValueError) as e:
         return dict(exit=None, out="", err="spawn: %r" % (e,), timeout=False, spawn_error=True)
     try:
@@ -277,7 +285,7 @@ class Ctx:
             doc = dict(property=self.prop, signature=sig, what=what, seed=self.seed, tier=self.tier,
                        tree=self.bins.get("hash"), case=case, observed=observed, expected=expected)
             tmp = path + ".tmp"
-            with open(tmp, "w") as f:
+            with open(tmp, "w", encoding="utf-8", errors="surrogatepass") as f:      # argv with non-UTF-8 bytes travels as lone surrogates
                 json.dump(doc, f, indent=1, ensure_ascii=False, default=repr)
             os.replace(tmp, path)
             print("VIOLATION property=%s replay=%s" % (self.prop, path))
@@ -316,7 +324,7 @@ class Ctx:
         os.makedirs(EVID, exist_ok=True)
         path = os.path.join(EVID, "%s.json" % self.prop)
         tmp = path + ".tmp%d" % os.getpid()
-        with open(tmp, "w") as f:
+        with open(tmp, "w", encoding="utf-8", errors="backslashreplace") as f:    # evidence stays valid UTF-8
             json.dump(doc, f, indent=1, ensure_ascii=False, default=repr)
         os.replace(tmp, path)
         shutil.rmtree(self.tmp, ignore_errors=True)
